@@ -8,6 +8,7 @@ import (
 	"fmt"
 	"os"
 	"sort"
+	"strings"
 	"time"
 
 	"verifharness/cmd/c06/drv"
@@ -69,6 +70,11 @@ func genCase(r *lib.Rng, id int64, tier string) drv.Case {
 			active = false
 		case k < 48:
 			c.Ops = append(c.Ops, drv.GenWC(r, 2, true))
+			if r.Chance(1, 3) { // paused now: a label-carrying UNPAUSE (refused in 1/4 of the draws), then a publish
+				c.Ops = append(c.Ops, drv.Op{Op: "PUB", Ch: r.Intn(nchan), N: r.Range(1, 3)})
+				c.Ops = append(c.Ops, drv.GenWC(r, 4, true))
+				c.Ops = append(c.Ops, drv.Op{Op: "PUB", Ch: r.Intn(nchan), N: r.Range(1, 3)})
+			}
 		case k < 57:
 			c.Ops = append(c.Ops, drv.GenWC(r, 3, true))
 		case k < 63:
@@ -114,6 +120,9 @@ func corpus() []drv.Case {
 		// pixel map of the wrong length: rejected once (and unloaded), then accepted
 		{Proj: pf, Base: 1, Map: 3, Ops: []drv.Op{st(true, false, false), pub(0, 1), st(true, false, false), pub(0, 1), wc("STOP")}},
 		{Proj: pf, Base: 1, Map: 2, Ops: []drv.Op{st(true, false, true), pub(0, 1), wc("STOP")}},
+		// UNPAUSE with a refused (multi-line) label while active and paused: nothing may change, nothing is stored
+		{Proj: pf, Base: 1, Map: -1, Ops: []drv.Op{st(true, false, true), wc("PAUSE"), pub(0, 1), wc("UNPAUSE two\nlines"), pub(0, 2), pub(1, 2), wc("unpause cr\rlf"), pub(0, 1),
+			wc("UNPAUSEx"), pub(1, 1), wc("UNPAUSE ok"), pub(0, 3), wc("STOP")}},
 		// pause while idle, unpause while idle, stop while idle
 		{Proj: []bool{true}, Base: 1, Map: -1, Ops: []drv.Op{wc("PAUSE"), pub(0, 1), wc("UNPAUSE"), wc("STOP"), wc("PAUSE"), st(true, false, true), pub(0, 2), wc("PAUSED"), pub(0, 2), wc("stopping"), st(false, false, true), pub(0, 1)}},
 	}
@@ -213,6 +222,9 @@ ops:
 				tags["unpause"] = true
 			case !ob.OK:
 				tags["rejected"] = true
+				if before.Active && before.Paused && len(o.Req) > 8 && strings.ContainsAny(o.Req, "\r\n") {
+					tags["unpause-refused-label-while-paused"] = true
+				}
 				if before.Active {
 					tags["rejected-while-active"] = true
 				}
